@@ -65,7 +65,7 @@ func c06Universe(p *profile.Profile) []string {
 	return u
 }
 
-func optRx(src *string) *regexp.Regexp {
+func c06OptRx(src *string) *regexp.Regexp {
 	if src == nil {
 		return nil
 	}
@@ -74,7 +74,7 @@ func optRx(src *string) *regexp.Regexp {
 
 func runC06(c *Ctx) {
 	r := c.R
-	kn := stackKnobs{Names: c06Names, Files: c06Files, MapFiles: c06Maps, MaxFuncs: 5, MaxLocs: 5, MaxLines: 3,
+	kn := c06StackKnobs{Names: c06Names, Files: c06Files, MapFiles: c06Maps, MaxFuncs: 5, MaxLocs: 5, MaxLines: 3,
 		MaxSamples: 4, MaxDepth: 4, Unsym: true, Empty: true, Labels: true, NoMap: true}
 	pickRx := func(num, den int) *string {
 		if r.P(num, den) {
@@ -100,31 +100,31 @@ func runC06(c *Ctx) {
 		return L(l...)
 	}
 	names := func(gen string, p *profile.Profile, fo, ig, hi, sh *string) {
-		in := L(S("names"), DumpProfile(p), optS(fo), optS(ig), optS(hi), optS(sh), matchTable(c06Universe(p), strs(fo, ig, hi, sh)))
-		before := Render(L(obsProfile(p)...))
-		obs := guard(func() Term {
-			fm, im, hm, hnm := p.FilterSamplesByName(optRx(fo), optRx(ig), optRx(hi), optRx(sh))
-			return L(append(append([]Term{S("ok")}, obsProfile(p)...), flags(fm, im, hm, hnm))...)
+		in := L(S("names"), DumpProfile(p), c06OptS(fo), c06OptS(ig), c06OptS(hi), c06OptS(sh), c06MatchTable(c06Universe(p), strs(fo, ig, hi, sh)))
+		before := Render(L(c06ObsProfile(p)...))
+		obs := c06Guard(func() Term {
+			fm, im, hm, hnm := p.FilterSamplesByName(c06OptRx(fo), c06OptRx(ig), c06OptRx(hi), c06OptRx(sh))
+			return L(append(append([]Term{S("ok")}, c06ObsProfile(p)...), flags(fm, im, hm, hnm))...)
 		})
-		c.Case(gen, in, obs, before != Render(L(obsProfile(p)...)), "op:names")
+		c.Case(gen, in, obs, before != Render(L(c06ObsProfile(p)...)), "op:names")
 	}
 	showFrom := func(gen string, p *profile.Profile, sf *string) {
-		in := L(S("showfrom"), DumpProfile(p), optS(sf), matchTable(c06Universe(p), strs(sf)))
-		before := Render(L(obsProfile(p)...))
-		obs := guard(func() Term {
-			m := p.ShowFrom(optRx(sf))
-			return L(append(append([]Term{S("ok")}, obsProfile(p)...), flags(m))...)
+		in := L(S("showfrom"), DumpProfile(p), c06OptS(sf), c06MatchTable(c06Universe(p), strs(sf)))
+		before := Render(L(c06ObsProfile(p)...))
+		obs := c06Guard(func() Term {
+			m := p.ShowFrom(c06OptRx(sf))
+			return L(append(append([]Term{S("ok")}, c06ObsProfile(p)...), flags(m))...)
 		})
-		c.Case(gen, in, obs, before != Render(L(obsProfile(p)...)), "op:showfrom")
+		c.Case(gen, in, obs, before != Render(L(c06ObsProfile(p)...)), "op:showfrom")
 	}
 	tagsByName := func(gen string, p *profile.Profile, sh, hi *string) {
-		in := L(S("tagsbyname"), DumpProfile(p), optS(sh), optS(hi), matchTable(c06Universe(p), strs(sh, hi)))
-		before := Render(L(obsProfile(p)...))
-		obs := guard(func() Term {
-			sm, hm := p.FilterTagsByName(optRx(sh), optRx(hi))
-			return L(append(append([]Term{S("ok")}, obsProfile(p)...), flags(sm, hm))...)
+		in := L(S("tagsbyname"), DumpProfile(p), c06OptS(sh), c06OptS(hi), c06MatchTable(c06Universe(p), strs(sh, hi)))
+		before := Render(L(c06ObsProfile(p)...))
+		obs := c06Guard(func() Term {
+			sm, hm := p.FilterTagsByName(c06OptRx(sh), c06OptRx(hi))
+			return L(append(append([]Term{S("ok")}, c06ObsProfile(p)...), flags(sm, hm))...)
 		})
-		c.Case(gen, in, obs, before != Render(L(obsProfile(p)...)), "op:tagsbyname")
+		c.Case(gen, in, obs, before != Render(L(c06ObsProfile(p)...)), "op:tagsbyname")
 	}
 	optNames := []string{"focus", "ignore", "hide", "show", "show_from", "tagfocus", "tagignore", "tagshow", "taghide", "prune_from"}
 	applyFocus := func(gen string, p *profile.Profile, opts map[string]string) {
@@ -155,10 +155,10 @@ func runC06(c *Ctx) {
 		for _, k := range uk {
 			us = append(us, L(S(k), S(units[k])))
 		}
-		in := L(S("applyfocus"), DumpProfile(p), L(cfg...), L(us...), matchTable(c06Universe(p), rxs))
-		before := Render(L(obsProfile(p)...))
+		in := L(S("applyfocus"), DumpProfile(p), L(cfg...), L(us...), c06MatchTable(c06Universe(p), rxs))
+		before := Render(L(c06ObsProfile(p)...))
 		ui := &c06UI{}
-		obs := guard(func() Term {
+		obs := c06Guard(func() Term {
 			st := ""
 			if err := driver.VerifApplyFocus(p, units, opts, ui); err != nil {
 				st = "?"
@@ -168,7 +168,7 @@ func runC06(c *Ctx) {
 					}
 				}
 			}
-			return L(append(append([]Term{S(st)}, obsProfile(p)...), Ss(ui.msgs))...)
+			return L(append(append([]Term{S(st)}, c06ObsProfile(p)...), Ss(ui.msgs))...)
 		})
 		nopts := 0
 		for _, v := range opts {
@@ -176,7 +176,7 @@ func runC06(c *Ctx) {
 				nopts++
 			}
 		}
-		c.Case(gen, in, obs, before != Render(L(obsProfile(p)...)), "op:applyfocus", fmt.Sprintf("nopts:%d", nopts))
+		c.Case(gen, in, obs, before != Render(L(c06ObsProfile(p)...)), "op:applyfocus", fmt.Sprintf("nopts:%d", nopts))
 	}
 	// the same options through generateRawReport, with and without relative_percentages: the filters
 	// must be applied exactly once either way
@@ -208,10 +208,10 @@ func runC06(c *Ctx) {
 		for _, k := range uk {
 			us = append(us, L(S(k), S(units[k])))
 		}
-		in := L(S("rawreport"), DumpProfile(p), L(cfg...), L(us...), matchTable(c06Universe(p), rxs), Bool(relative))
-		before := Render(L(obsProfile(p)...))
+		in := L(S("rawreport"), DumpProfile(p), L(cfg...), L(us...), c06MatchTable(c06Universe(p), rxs), Bool(relative))
+		before := Render(L(c06ObsProfile(p)...))
 		ui := &c06UI{}
-		obs := guard(func() Term {
+		obs := c06Guard(func() Term {
 			st := ""
 			if err := driver.VerifC06RawReport(p, opts, relative, ui); err != nil {
 				st = "?"
@@ -221,9 +221,9 @@ func runC06(c *Ctx) {
 					}
 				}
 			}
-			return L(append([]Term{S(st)}, obsProfile(p)...)...)
+			return L(append([]Term{S(st)}, c06ObsProfile(p)...)...)
 		})
-		c.Case(gen, in, obs, before != Render(L(obsProfile(p)...)), "op:rawreport", fmt.Sprintf("relative:%v", relative))
+		c.Case(gen, in, obs, before != Render(L(c06ObsProfile(p)...)), "op:rawreport", fmt.Sprintf("relative:%v", relative))
 	}
 
 	// ---- witnesses of the known findings, always generated
@@ -236,14 +236,14 @@ func runC06(c *Ctx) {
 	for i := 0; i < c.Budget(200, 4000); i++ {
 		rx := PickS(r, c06Rx)
 		seed := r.U64()
-		names("focus-only", genStacks(NewRng(seed), kn), &rx, nil, nil, nil)
-		names("ignore-only", genStacks(NewRng(seed), kn), nil, &rx, nil, nil)
+		names("focus-only", c06GenStacks(NewRng(seed), kn), &rx, nil, nil, nil)
+		names("ignore-only", c06GenStacks(NewRng(seed), kn), nil, &rx, nil, nil)
 	}
 	for i := 0; i < c.Budget(400, 8000); i++ {
-		names("names-rand", genStacks(r, kn), pickRx(1, 2), pickRx(1, 2), pickRx(1, 2), pickRx(1, 2))
+		names("names-rand", c06GenStacks(r, kn), pickRx(1, 2), pickRx(1, 2), pickRx(1, 2), pickRx(1, 2))
 	}
 	for i := 0; i < c.Budget(300, 5000); i++ {
-		showFrom("showfrom-rand", genStacks(r, kn), pickRx(9, 10))
+		showFrom("showfrom-rand", c06GenStacks(r, kn), pickRx(9, 10))
 	}
 	for i := 0; i < c.Budget(150, 2000); i++ {
 		var sh, hi *string
@@ -255,7 +255,7 @@ func runC06(c *Ctx) {
 			s := PickS(r, c06KeyRx)
 			hi = &s
 		}
-		tagsByName("tagsbyname-rand", genStacks(r, kn), sh, hi)
+		tagsByName("tagsbyname-rand", c06GenStacks(r, kn), sh, hi)
 	}
 	// ---- applyFocus: single options, pairs, random subsets, invalid expressions
 	for i := 0; i < c.Budget(350, 6000); i++ {
@@ -268,7 +268,7 @@ func runC06(c *Ctx) {
 		if r.P(1, 4) {
 			opts["tagfocus"] = PickS(r, c06TagRx)
 		}
-		applyFocus("tagfilter", genStacks(r, kn), opts)
+		applyFocus("tagfilter", c06GenStacks(r, kn), opts)
 	}
 	// ---- numeric ranges at their bounds: label values lo-1, lo, lo+1, hi-1, hi, hi+1 in the range's unit
 	for i := 0; i < c.Budget(120, 2000); i++ {
@@ -276,7 +276,7 @@ func runC06(c *Ctx) {
 		hi := lo * PickI(r, []int64{1, 2, 4})
 		unit := PickS(r, []string{"", "kb", "b", "mb"})
 		mult := map[string]int64{"": 1, "kb": 1024, "b": 1, "mb": 1 << 20}[unit]
-		p := genStacks(r, kn)
+		p := c06GenStacks(r, kn)
 		for _, s := range p.Sample {
 			v := PickI(r, []int64{lo - 1, lo, lo + 1, hi - 1, hi, hi + 1}) * mult
 			s.NumLabel = map[string][]int64{"bytes": {v}}
@@ -323,9 +323,9 @@ func runC06(c *Ctx) {
 				opts[n] = PickS(r, c06BadRx)
 			}
 		}
-		applyFocus("applyfocus-rand", genStacks(r, kn), opts)
+		applyFocus("applyfocus-rand", c06GenStacks(r, kn), opts)
 		if i%3 == 0 {
-			rawReport("rawreport-rand", genStacks(r, kn), opts, i%2 == 0)
+			rawReport("rawreport-rand", c06GenStacks(r, kn), opts, i%2 == 0)
 		}
 	}
 	// overlapping combinations: what one filter removes another one looks for
@@ -336,8 +336,8 @@ func runC06(c *Ctx) {
 			{"focus": x, "show": y}, {"ignore": x, "hide": y},
 		}
 		opts := combos[i%len(combos)]
-		rawReport("rawreport-overlap", genStacks(r, kn), opts, true)
-		rawReport("rawreport-overlap", genStacks(r, kn), opts, false)
+		rawReport("rawreport-overlap", c06GenStacks(r, kn), opts, true)
+		rawReport("rawreport-overlap", c06GenStacks(r, kn), opts, false)
 	}
 }
 
